@@ -135,15 +135,23 @@ func c20ValueInSchema() []c20input {
 		{"type": "object", "required": gen.Arr("a", "a"), "properties": gen.S{"a": gen.S{"type": "integer", "multipleOf": 0.0}}}, {"type": "object", "additionalProperties": false, "minProperties": 2.0},
 		{"type": "object", "discriminator": gen.S{"propertyName": "k"}, "oneOf": gen.Arr(gen.S{"type": "object"})}, {"enum": gen.Arr()}, {"enum": gen.Arr(nil)}, {"nullable": true, "enum": gen.Arr(1.0)}, {"not": gen.S{}},
 		{"oneOf": gen.Arr()}, {"anyOf": gen.Arr()}, {"allOf": gen.Arr()}, {"type": "integer", "format": "int32"}, {"type": "integer", "format": "int64"},
+		{"type": "string", "format": "date"}, {"format": "date"}, {"type": "string", "format": "email"}, {"type": "string", "format": "uuid"}, {"type": "number", "format": "float"}, {"type": "number", "format": "double"},
 	}
 	values := []any{nil, 0.0, -0.0, 1.0, -1.0, 0.5, 1e308, -1e308, 1e-320, 2147483648.0, 9.3e18, "", "a", "2020-01-01T00:00:00Z", "=", true, gen.Arr(), gen.Arr(0.0, 0.0), gen.Arr(nil), gen.S{}, gen.S{"a": 0.0}, gen.S{"k": "x"}, gen.S{"a": gen.S{"a": 0.0}}}
 	for si, s := range schemas {
 		for vi, v := range values {
-			for _, where := range []string{"default", "example", "enum"} {
+			for _, where := range []string{"default", "example", "enum", "enum-mixed"} {
 				sc := gen.Clone(s)
-				if where == "enum" {
+				switch where {
+				case "enum":
 					sc["enum"] = gen.Arr(v)
-				} else {
+				case "enum-mixed":
+					// a member of the expected kind first, then the odd one
+					sc["enum"] = gen.Arr("2024-01-01", 1.0, v)
+					if si%2 == 0 {
+						sc["enum"] = gen.Arr("2024-01-01", v)
+					}
+				default:
 					sc[where] = v
 				}
 				mk(fmt.Sprintf("value-in-schema #%d %s=#%d", si, where, vi), gen.S{"S": sc})
